@@ -70,6 +70,9 @@ class Values:
         if t is dict:
             return ('dict',) + tuple(sorted((self.key(k), self.key(x)) for k, x in v.items()))
         if isinstance(v, BaseException):
+            if t.__name__ in ('InvalidStateError', 'CancelledError', 'TimeoutError', 'Full', 'Empty', 'KeyError',
+                              'IndexError', 'RuntimeError'):
+                return ('exc', t.__module__, t.__qualname__, ())  # message text differs between stub and stdlib
             return ('exc', t.__module__, t.__qualname__, tuple(self.key(a) for a in v.args))
         if isinstance(v, type):
             return ('cls', v.__module__, v.__qualname__)
